@@ -89,7 +89,7 @@ def run(ctx):
     bt_cases, bt_metas = [], []
     with bfsrun.Monitors() as mon:
         for gi in range(ctx.budget(50, 400)):
-            gd = P.gen_invertible_graph(rng, ctx.budget(300, 2500))
+            gd = G.gen_colliding_coset(rng, 800) if gi % 6 == 4 else G.gen_repeated_closed(rng, 300) if gi % 6 == 1 else P.gen_invertible_graph(rng, ctx.budget(300, 2500))
             cfgd = G.gen_config(rng, gd)
             layers, dist = G.ref_bfs(gd, [gd["central"]])
             ecc = len(layers) - 1
